@@ -12,8 +12,8 @@ import hashlib
 import json
 import os
 
-MAX_FOLD_NODES = 48
-MAX_OPT_NODES = 40
+MAX_FOLD_NODES = 130
+MAX_OPT_NODES = 100
 
 _SEEN = set()
 _TYPES = {"TorchSumLayer": "sum", "TorchHadamardLayer": "had", "TorchKroneckerLayer": "kron",
